@@ -374,8 +374,19 @@ func TestC03WindowShrunk(t *testing.T) {
 		at := int64(rapid.IntRange(0, int(min(longest+2000, 650_000))).Draw(rt, "shrinkAt"))
 		var st sim.CoreStats
 		shrunk, parked := 0, 0
+		zeroAdv, waskSent := false, 0
 		rapid.SyncTest(rt, func(rt *rapid.T) {
 			s := sim.NewCoreSim(cfg, fs, app)
+			s.OnEmit = func(e *sim.Emitted) error {
+				_, wask, _, zero := controlOnly(e.Segs)
+				if wask {
+					waskSent++
+				}
+				if zero && e.From == 1 {
+					zeroAdv = true
+				}
+				return nil
+			}
 			shrink := func() {
 				v := s.K[1].VerifState(false)
 				to := max(1, need, int(v.RcvWnd)/div)
@@ -420,6 +431,12 @@ func TestC03WindowShrunk(t *testing.T) {
 		}
 		if parked > 0 {
 			cl = append(cl, "lowered_with_segments_parked_behind_the_queue")
+		}
+		if zeroAdv {
+			cl = append(cl, "zero_window_advertised")
+		}
+		if waskSent > 0 {
+			cl = append(cl, "window_probe_sent")
 		}
 		rec.Case(hx.Hash64(cfg, fs.Describe(), app, div, whenFull, at), parked > 0, cl...)
 		if rec.WantSample() {
